@@ -263,6 +263,12 @@ func genC01(o *Out, rng *rand.Rand, tier string) {
 			emit(p2, "boundary-mixed")
 		}
 	}
+	// values around and beyond what 16 bits count (no datagram carries them, the encoder takes any packet value)
+	for _, L := range []int{16383, 16384, 32767, 32768, 65279, 65280, 65535, 65536, 65537, 66000} {
+		p := randPacket4(rng, 0, nil)
+		p.Options = dhcpv4.Options{uint8(pick(rng, 43, 82, 224)): randBytes(rng, L)}
+		emit(p, "boundary-16-bit")
+	}
 	// every length 0..780 once (covers every length around 255/510/765 exhaustively)
 	for L := 0; L <= 780; L++ {
 		if tier != "thorough" && L > 12 && (L%255 > 3 && L%255 < 252) && L%17 != 0 {
@@ -409,6 +415,35 @@ func genC04(o *Out, rng *rand.Rand, tier string) {
 				emit(m, "corrupt-len-cookie")
 			}
 		}
+	}
+	// every hardware type of the registry (and a few outside it) with every hardware address length worth a thought:
+	// the header is read the same way whatever the link is (chaddr = the first min(hlen,16) bytes)
+	{
+		htypes := []int{0, 1, 2, 6, 7, 15, 16, 18, 20, 23, 24, 27, 31, 32, 33, 37, 38, 100, 254, 255}
+		hlens := []int{0, 1, 2, 4, 5, 6, 7, 8, 12, 15, 16, 17, 20, 21, 32, 64, 128, 255}
+		for _, ht := range htypes {
+			for _, hl := range hlens {
+				w := append([]byte(nil), hdr...)
+				w[1], w[2] = byte(ht), byte(hl)
+				for i := 28; i < 44; i++ {
+					w[i] = byte(0xa0 + i)
+				}
+				w = append(w, 53, 1, byte(1+(ht+hl)%8), 61, 3, 1, byte(ht), byte(hl), 255)
+				emit(w, "hardware-type-by-address-length")
+			}
+		}
+	}
+	// (b1) one option in very many instances: totals around and beyond what 16 bits count (larger than any datagram;
+	// the decoder takes any byte string), and hundreds of tiny instances
+	for _, spec := range [][2]int{{257, 255}, {258, 255}, {259, 255}, {300, 255}, {300, 1}, {1000, 0}, {700, 3}} {
+		w := append([]byte(nil), hdr...)
+		for k := 0; k < spec[0]; k++ {
+			w = append(w, 43, byte(spec[1]))
+			for j := 0; j < spec[1]; j++ {
+				w = append(w, byte(k+j))
+			}
+		}
+		emit(append(w, 255), "many-instances")
 	}
 	// (b2) every option code with a few small values, in a packet whose hardware address length and name fields
 	// vary: plain names, names that look like option runs, bytes after the first NUL; no option may change how
